@@ -104,6 +104,11 @@ func drainDef(def lexer.Definition, how, filename string, in []byte) ([]lexer.To
 			return nil, nil, false
 		}
 		l, err = bd.LexBytes(filename, in)
+	case "dataerr":
+		// a reader that hands out its last bytes together with io.EOF (as decompressors do)
+		l, err = def.Lex(filename, iotest.DataErrReader(bytes.NewReader(in)))
+	case "onebyte":
+		l, err = def.Lex(filename, iotest.OneByteReader(bytes.NewReader(in)))
 	default:
 		l, err = def.Lex(filename, bytes.NewReader(in))
 	}
@@ -364,13 +369,13 @@ func checkC15(p *pue, c *c15Case, r *vstat.Run) outcome {
 	if errText(perr) != errText(derr) || (perr == nil && !sameToks(ptoks, dtoks)) {
 		return violationf("parser-lex", "%s: Parser.Lex (%d tokens, err %v) differs from draining the parser's lexer definition (%d tokens, err %v)", desc, len(ptoks), perr, len(dtoks), derr)
 	}
-	for _, how := range []string{"string", "bytes"} {
+	for _, how := range []string{"string", "bytes", "dataerr", "onebyte"} {
 		toks, err, ok := drainDef(p.def, how, c.Filename, in)
 		if !ok {
 			continue
 		}
 		if errText(err) != errText(derr) || (err == nil && !sameToks(toks, dtoks)) {
-			return violationf("lex-variants", "%s: the definition's Lex%s stream (%d tokens, err %v) differs from Lex(reader) (%d tokens, err %v)", desc, strings.Title(how), len(toks), err, len(dtoks), derr)
+			return violationf("lex-variants", "%s: the definition's stream through entry %q (%d tokens, err %v) differs from Lex(reader) (%d tokens, err %v)", desc, how, len(toks), err, len(dtoks), derr)
 		}
 	}
 	var ihows []string
@@ -558,10 +563,10 @@ func checkC15Lex(c *c15Case, def lexer.Definition, r *vstat.Run) outcome {
 					}
 				}
 			}
-			for _, how := range []string{"string", "bytes"} {
+			for _, how := range []string{"string", "bytes", "dataerr", "onebyte"} {
 				t1, e1, ok := drainDef(def, how, c.Filename, in)
 				if ok && (errText(e1) != errText(e0) || !sameToks(t1, t0)) {
-					out = violationf("lex-variants", "Lex%s yields %d tokens, err %v; Lex(reader) yields %d tokens, err %v\n%s", strings.Title(how), len(t1), e1, len(t0), e0, desc(i))
+					out = violationf("lex-variants", "Lex through entry %q yields %d tokens, err %v; Lex(reader) yields %d tokens, err %v\n%s", how, len(t1), e1, len(t0), e0, desc(i))
 					return
 				}
 			}
